@@ -206,6 +206,10 @@ impl<'a> Packet<'a> {
 
     /// Write the contents of this package in wire format with enabled compression into the provided writer
     pub fn write_compressed_to<T: Write + Seek>(&self, out: &mut T) -> crate::Result<()> {
+        // compression pointers are offsets from the first byte of the message, which is not
+        // necessarily the first byte of the writer
+        let start = out.stream_position()?;
+        let out = &mut MessageWriter { inner: out, start };
         self.write_header(out)?;
 
         let mut name_refs = HashMap::new();
@@ -239,6 +243,34 @@ impl<'a> Packet<'a> {
             self.name_servers.len() as u16,
             self.additional_records.len() as u16 + u16::from(self.header.opt.is_some()),
         )
+    }
+}
+
+/// Presents a writer positioned anywhere as if the message started at offset zero
+struct MessageWriter<'w, T: Write + Seek> {
+    inner: &'w mut T,
+    start: u64,
+}
+
+impl<T: Write + Seek> Write for MessageWriter<'_, T> {
+    fn write(&mut self, buf: &[u8]) -> std::io::Result<usize> {
+        self.inner.write(buf)
+    }
+
+    fn flush(&mut self) -> std::io::Result<()> {
+        self.inner.flush()
+    }
+}
+
+impl<T: Write + Seek> Seek for MessageWriter<'_, T> {
+    fn seek(&mut self, pos: std::io::SeekFrom) -> std::io::Result<u64> {
+        let pos = match pos {
+            std::io::SeekFrom::Start(offset) => std::io::SeekFrom::Start(self.start + offset),
+            other => other,
+        };
+        self.inner
+            .seek(pos)
+            .map(|position| position.saturating_sub(self.start))
     }
 }
 
